@@ -8,3 +8,10 @@ package datanode
 // The values of a leaf or leaf-list node, in the order given: a heap-independent view of their number.
 //@ func (DataNode).YangDataValuesNoSorting
 //@   ensures len(result) == dn_nvalues(self)
+
+// The accessors only report: they change nothing the caller can see (they may sort a cached slice of their own).
+//@ func (DataNode).YangDataName
+//@ func (DataNode).YangDataChildrenNoSorting
+//@ func CreateDataNode
+//@   nopanic
+//@   ensures result != nil
